@@ -233,6 +233,9 @@ class ReadableStream(io.RawIOBase):
     #: Total size of data or ``None`` if not specified
     size = None
 
+    #: Data of the last segment not yet handed out by readinto()
+    _pending = b""
+
     def __init__(self, sdo_client, index, subindex=0):
         """
         :param canopen.sdo.SdoClient sdo_client:
@@ -289,6 +292,12 @@ class ReadableStream(io.RawIOBase):
         :returns: 1 - 7 bytes of data or no bytes if EOF.
         :rtype: bytes
         """
+        if self._pending:
+            # Left over from a readinto() with a small buffer
+            data, self._pending = self._pending, b""
+            if size is None or size < 0:
+                return data + self.readall()
+            return data
         if self._done:
             return b""
         if self.exp_data is not None:
@@ -322,9 +331,13 @@ class ReadableStream(io.RawIOBase):
         Read bytes into a pre-allocated, writable bytes-like object b,
         and return the number of bytes read.
         """
-        data = self.read(7)
-        b[:len(data)] = data
-        return len(data)
+        if not self._pending:
+            self._pending = self.read(7)
+        # The buffer may be smaller than a segment, keep the rest for later
+        count = min(len(b), len(self._pending))
+        b[:count] = self._pending[:count]
+        self._pending = self._pending[count:]
+        return count
 
     def readable(self):
         return True
@@ -460,6 +473,9 @@ class BlockUploadStream(io.RawIOBase):
 
     crc_supported = False
 
+    #: Data of the last segment not yet handed out by readinto()
+    _pending = b""
+
     def __init__(self, sdo_client, index, subindex=0, request_crc_support=True):
         """
         :param canopen.sdo.SdoClient sdo_client:
@@ -520,6 +536,12 @@ class BlockUploadStream(io.RawIOBase):
         :returns: 1 - 7 bytes of data or no bytes if EOF.
         :rtype: bytes
         """
+        if self._pending:
+            # Left over from a readinto() with a small buffer
+            data, self._pending = self._pending, b""
+            if size is None or size < 0:
+                return data + self.readall()
+            return data
         if self._done:
             return b""
         if size is None or size < 0:
@@ -618,9 +640,13 @@ class BlockUploadStream(io.RawIOBase):
         Read bytes into a pre-allocated, writable bytes-like object b,
         and return the number of bytes read.
         """
-        data = self.read(7)
-        b[:len(data)] = data
-        return len(data)
+        if not self._pending:
+            self._pending = self.read(7)
+        # The buffer may be smaller than a segment, keep the rest for later
+        count = min(len(b), len(self._pending))
+        b[:count] = self._pending[:count]
+        self._pending = self._pending[count:]
+        return count
 
     def readable(self):
         return True
